@@ -52,11 +52,14 @@ type Job struct {
 	FilesPath string
 	RunFile   string
 	Stage     *mrogen.Stage
-	// what the job found when it started
+	// what the job found when it started (after Options.Norm, if set)
 	Args      *jsonx.Obj
 	ChunkDefs []any
 	ChunkOuts []any
 	ReadErr   error
+	// the same, exactly as read
+	RawArgs      *jsonx.Obj
+	RawChunkOuts []any
 	// logical times
 	SubmitT int
 	FinishT int
@@ -85,6 +88,13 @@ type Options struct {
 	Cores     int
 	MemGB     int
 	StageOpts stagefn.Opts
+	// Norm, if set, is applied to everything a job receives before the
+	// stage function and the oracles see it (file runs: absolute paths
+	// inside the pipestance -> the token the stage function generated).
+	Norm func(v any) any
+	// OnOuts, if set, may replace the outputs a job computed before they
+	// are written (file runs: tokens -> paths of files written now).
+	OnOuts func(j *Job, outs *jsonx.Obj) *jsonx.Obj
 }
 
 type Sim struct {
@@ -227,7 +237,10 @@ func (s *Sim) onExec(vj *core.VerifJob) {
 	if v, err := readJSON(filepath.Join(j.MdPath, "_args")); err != nil {
 		j.ReadErr = err
 	} else if o, ok := v.(*jsonx.Obj); ok {
-		j.Args = o
+		j.Args, j.RawArgs = o, o
+		if s.Opts.Norm != nil {
+			j.Args, _ = s.Opts.Norm(o).(*jsonx.Obj)
+		}
 	} else {
 		j.ReadErr = fmt.Errorf("_args is not an object")
 	}
@@ -239,6 +252,10 @@ func (s *Sim) onExec(vj *core.VerifJob) {
 		}
 		if v, err := readJSON(filepath.Join(j.MdPath, "_chunk_outs")); err == nil {
 			j.ChunkOuts, _ = v.([]any)
+			j.RawChunkOuts = j.ChunkOuts
+			if s.Opts.Norm != nil {
+				j.ChunkOuts, _ = s.Opts.Norm(j.ChunkOuts).([]any)
+			}
 		} else {
 			j.ReadErr = err
 		}
@@ -360,6 +377,9 @@ func (s *Sim) Finish(j *Job) error {
 	if err != nil {
 		return err
 	}
+	if s.Opts.OnOuts != nil {
+		outs = s.Opts.OnOuts(j, outs)
+	}
 	if err := s.WriteOuts(j, outs); err != nil {
 		return err
 	}
@@ -381,9 +401,20 @@ func (s *Sim) TopOuts() (*jsonx.Obj, error) {
 
 // Cleanup performs what mrp does when the pipestance is complete.
 func (s *Sim) Cleanup() {
+	s.FinalVDR()
+	s.PostProcess()
+}
+
+// FinalVDR is the first half of Cleanup: the final volatile data removal.
+func (s *Sim) FinalVDR() *core.VDRKillReport {
 	if s.rt.Config.VdrMode != core.VdrDisable {
-		s.PS.VDRKill()
+		return s.PS.VDRKill()
 	}
+	return nil
+}
+
+// PostProcess is the second half of Cleanup.
+func (s *Sim) PostProcess() {
 	s.PS.PostProcess()
 	s.PS.Unlock()
 }
